@@ -139,8 +139,9 @@ func checkC18(c C18Case) h.Outcome {
 		}
 		seen[id] = i
 	}
-	if rr.over || rr.off != len(all) {
-		o.Violation = h.V("id-randomness-consumption", "consumed %d bytes for %d IDs (overrun=%v)", rr.off, len(ids), rr.over)
+	if rr.off < len(all) {
+		// reading ahead (a buffered generator) is fine; consuming LESS than 16 fresh bytes per ID is not
+		o.Violation = h.V("id-randomness-consumption", "consumed only %d bytes of crypto/rand for %d IDs", rr.off, len(ids))
 	}
 	o.Classes = dedup(o.Classes)
 	return o
